@@ -322,6 +322,40 @@ theorem c14_searchDocs_compose (c : SV.Merge.Cfg) (ps : List (SV.Merge.Frac × I
   subst hr; subst hq'
   exact ⟨by rw [hrt, hrt', hd1, hd2], fun k => by rw [hrh k, hrh' k, hd1, hd2]⟩
 
+/-- **paged result = top-limit of the union, ties on MID included.**  `SearchDocs` over the fractions kept by the real
+`Info.IsIntersecting`, for every `FractionsPerIteration`, both orders, every limit, whether or not the early
+termination (`calcEnsuredIDsCount`) fires: the IDs are the first `L` of the duplicate-free union of all matching
+documents of ALL fractions in the `(MID, RID)` order (`sd` over keys `mid*2^64+rid`).  Nothing is assumed about how
+the fractions' time ranges relate: they may touch or overlap, a document with `MID = To` of the next fraction and
+same-millisecond documents with larger or smaller RIDs on both sides are covered (C05's `ensured_sound` needs the
+non-strict `MID <= To` / `MID >= From` of the source, pinned by `c14_x_ensured_boundaries`). -/
+theorem c14_searchDocs_top_limit (c : SV.Merge.Cfg) (ps : List (SV.Merge.Frac × Info)) (qf qt L : Nat)
+    (hqt : qt < 18446744073709551616)
+    (hinv : ∀ p, p ∈ ps → SV.Merge.FracInv p.1)
+    (hok : ∀ p, p ∈ ps → ∃ g, FracOK g ∧ g.info = p.2 ∧
+      ∀ k, k ∈ p.1.docs → qf ≤ SV.Merge.midOf k ∧ SV.Merge.midOf k ≤ qt ∧ ∃ rid, (SV.Merge.midOf k, rid) ∈ g.docs)
+    (hmax : c.maxHits = 0 ∨ (SV.Merge.keptDist ps qf qt).length ≤ c.maxHits) :
+    ∃ q, SV.Merge.searchDocsDist c ps qf qt L = some q ∧
+      q.ids = (SV.Merge.sd c.desc (SV.Merge.docsOf (ps.map Prod.fst))).take L := by
+  apply SV.Merge.searchDocsDist_ids c ps qf qt L hinv _ hmax
+  intro p hp hne
+  rcases hok p hp with ⟨g, hg, hinfo, hdocs⟩
+  rcases List.exists_mem_of_ne_nil _ hne with ⟨k, hk⟩
+  rcases hdocs k hk with ⟨h1, h2, rid, hmem⟩
+  rw [← hinfo]
+  exact c14_fracOK_sound hg (SV.Merge.midOf k, rid) hmem qf qt h1 h2 hqt
+
+/-- the witness layout of the boundary: fraction A = {(t+5,1), (t,2)}, fraction B = {(t,3), (t-5,4)} with
+`B.To = t`, DESC, limit 2, one fraction per iteration: the model (non-strict comparison) returns (t+5,1), (t,3);
+with the strict comparison `MID < To` the ID (t,2) would count as ensured and (t,3) would be lost -/
+example :
+    let A : SV.Merge.Frac := ⟨2, 100, 105, [SV.Merge.key 105 1, SV.Merge.key 100 2]⟩
+    let B : SV.Merge.Frac := ⟨2, 95, 100, [SV.Merge.key 100 3, SV.Merge.key 95 4]⟩
+    SV.Merge.calcEnsured true [SV.Merge.key 105 1, SV.Merge.key 100 2] [B] = 1 ∧
+    (SV.Merge.sd true (SV.Merge.docsOf [A, B])).take 2 = [SV.Merge.key 105 1, SV.Merge.key 100 3] := by
+  refine ⟨?_, by decide⟩
+  simp [SV.Merge.calcEnsured, SV.searchGo, SV.Merge.midOf, SV.Merge.key, SV.Merge.R]
+
 /-- non-vacuity: one sealed fraction with a distribution, its oldest document matches; all hypotheses hold -/
 example :
     let info := FracInfo.sealed consts 1000000000000 [[999998800000], [999999999999]]
@@ -471,5 +505,16 @@ theorem c14_x_filterInRange_fresh_list :
       "for _, f := range l { if f.IsIntersecting(from, to) { res = append(res, f) } }", "return res"] ∧
     groupIDsListWrites = ["fracsOut := fracsIn.FilterInRange(minMID, maxMID)",
       "idsByFracs := make([][]seq.ID, 0, len(fracsOut))", "fracsOut[l] = f", "return fracsOut[:l], idsByFracs"] := by decide
+
+/-- the boundaries of the early termination are NON-strict, in both orders: an ID whose MID equals `From`/`To` of the
+next not yet searched fraction is not ensured (that fraction may hold a same-millisecond ID that sorts before it);
+and the limit handed to the remaining fractions is `origLimit - ensured` -/
+theorem c14_x_ensured_boundaries :
+    calcEnsuredStmts = ["if len(remainingFracs) == 0 { return len(ids) }", "nextFracInfo := remainingFracs[0].Info()",
+      "if order.IsReverse() { return sort.Search(len(ids), func(i int) bool { return ids[i].ID.MID >= nextFracInfo.From }) }",
+      "return sort.Search(len(ids), func(i int) bool { return ids[i].ID.MID <= nextFracInfo.To })"] ∧
+    searchDocsLimitUpdate = ["origLimit := params.Limit", "fracsChunkSize := s.cfg.FractionsPerIteration",
+      "fracsChunkSize = len(remainingFracs)", "for len(remainingFracs) > 0 && (scanAll || params.Limit > 0)",
+      "params.Limit = origLimit - calcEnsuredIDsCount(total.IDs, remainingFracs, params.Order)"] := by decide
 
 end SV.Props.C14
